@@ -7,6 +7,9 @@
 //   P dim | <kernel spec> | n1 s_1 pts.. s_2 pts.. | n2 ... | c (n1*n2)              (PointSetKernel: inputs are point sets)
 //   M dim1 dim3 nt | table(nt*nt) | g logw2 logw3 | n1 (v1 idx v3).. | n2 .. | partition sizes   (MklKernel: RBF(g) x Discrete x Linear)
 //   T dim nt | <kernel spec> | gamma | n (x task).. | reps     (GaussianTaskKernel over the multi-task data, MultiTaskKernel(spec kernel, task kernel))
+//   W <dense|sparse> dim e | <kernel spec> | n1 x.. | n2 z.. | c (n1*n2) | partition sizes of X1 | reg
+//        magnitude stream: as V, every input coordinate multiplied by 2^e (exact); no finite differences; if the spec is NORM K, the
+//        values of the base kernel K that NormalizedKernel combines are printed too (fields KB BB BBS KX KZ KX1 KZ1)
 //
 // kernel spec (prefix): LIN | POLY d c degIsParam unconstrained | MONO d | RBF g unconstrained | ARD g1..gdim |
 //   NORM K | SCALED f K | WSUM n logw2..logwn K1..Kn | PROD n K1..Kn | SUBR n a1 b1 K1 .. an bn Kn | MODEL m W(m*dim) b(m) K
@@ -26,6 +29,10 @@
 //   T cases: TK task-kernel table right after construction, TK2 after reps x setParameterVector(parameterVector()), KI input kernel on
 //            all pairs of examples, MT MultiTaskKernel single evaluations on all pairs, MB its batch evaluation, TS the task indices
 //   KD  calculateKernelMatrixParameterDerivative(X1 partitioned, weights = c-like symmetric matrix CS), NKD its finite differences
+//   W cases with spec NORM K: KB K.eval(x_i,z_j) single, KX K.eval(x_i,x_i), KZ K.eval(z_j,z_j), BB state-less batch K.eval(X1,X2),
+//            BBS batch K.eval(X1,X2) with state, KX1 / KZ1 K.eval on the 1-element batches ({x_i},{x_i}) / ({z_j},{z_j}) with state
+//            (the values NormalizedKernel's three eval overloads divide; the model's norm_single/norm_rowdiv/norm_outer must
+//            reproduce S / B / BS from them bit for bit)
 #include <shark/Models/Kernels/LinearKernel.h>
 #include <shark/Models/Kernels/PolynomialKernel.h>
 #include <shark/Models/Kernels/MonomialKernel.h>
@@ -49,6 +56,7 @@
 #include <iostream>
 #include <sstream>
 #include <cstdio>
+#include <cmath>
 #include <cstring>
 #include <new>
 
@@ -203,6 +211,7 @@ template<class I> static void common(Out& o, AbstractKernelFunction<I>& k, std::
 	}
 }
 
+static double g_scale = 1.0;    // W cases: every input coordinate is multiplied by this power of two
 static std::vector<Toks> groups(std::istringstream& is) {
 	std::vector<Toks> g(1); std::string t; while (is >> t) { if (t == "|") g.push_back(Toks()); else g.back().push_back(t); } return g;
 }
@@ -214,14 +223,14 @@ static RealMatrix coeffs(Toks const& t, std::size_t n1, std::size_t n2) {
 template<class I> static std::vector<I> points(Toks const& t, std::size_t dim);
 template<> std::vector<RealVector> points<RealVector>(Toks const& t, std::size_t dim) {
 	std::size_t n = std::stoul(t.at(0)); std::vector<RealVector> X;
-	for (std::size_t i = 0; i != n; ++i) { RealVector v(dim); for (std::size_t d = 0; d != dim; ++d) v(d) = num(t.at(1 + i * dim + d)); X.push_back(v); }
+	for (std::size_t i = 0; i != n; ++i) { RealVector v(dim); for (std::size_t d = 0; d != dim; ++d) v(d) = g_scale * num(t.at(1 + i * dim + d)); X.push_back(v); }
 	return X;
 }
 template<> std::vector<CompressedRealVector> points<CompressedRealVector>(Toks const& t, std::size_t dim) {
 	std::size_t n = std::stoul(t.at(0)); std::vector<CompressedRealVector> X;
 	for (std::size_t i = 0; i != n; ++i) {
 		CompressedRealVector v(dim);
-		for (std::size_t d = 0; d != dim; ++d) { double x = num(t.at(1 + i * dim + d)); if (x != 0) v.set_element(v.end(), d, x); }
+		for (std::size_t d = 0; d != dim; ++d) { double x = g_scale * num(t.at(1 + i * dim + d)); if (x != 0) v.set_element(v.end(), d, x); }
 		X.push_back(v);
 	}
 	return X;
@@ -253,6 +262,41 @@ static void vector_case_sparse(Out& o, std::vector<Toks> const& g) {
 	std::vector<CompressedRealVector> X1 = points<CompressedRealVector>(g[2], dim), X2 = points<CompressedRealVector>(g[3], dim);
 	RealMatrix C = coeffs(g[4], X1.size(), X2.size());
 	common(o, *k, X1, X2, C, sizes(g[5]), num(g[6].at(0)), true);
+}
+// magnitude stream: the same evaluations as a V case on inputs scaled by 2^e, without the finite differences
+static void magnitude_case(Out& o, std::vector<Toks> const& g) {
+	std::size_t dim = std::stoul(g[0].at(1)); int e = std::stoi(g[0].at(2));
+	struct Reset { ~Reset() { g_scale = 1.0; } } reset;
+	g_scale = std::ldexp(1.0, e);
+	if (g[0].at(0) == "sparse") {
+		Builder<CompressedRealVector> b(g[1]); AbstractKernelFunction<CompressedRealVector>* k = b.parse(dim);
+		std::vector<CompressedRealVector> X1 = points<CompressedRealVector>(g[2], dim), X2 = points<CompressedRealVector>(g[3], dim);
+		RealMatrix C = coeffs(g[4], X1.size(), X2.size());
+		common(o, *k, X1, X2, C, sizes(g[5]), num(g[6].at(0)), false);
+		return;
+	}
+	Builder<RealVector> b(g[1]); AbstractKernelFunction<RealVector>* k = b.parse(dim);
+	std::vector<RealVector> X1 = points<RealVector>(g[2], dim), X2 = points<RealVector>(g[3], dim);
+	std::size_t n1 = X1.size(), n2 = X2.size(); RealMatrix C = coeffs(g[4], n1, n2);
+	RealMatrix b1 = createBatch<RealVector>(X1), b2 = createBatch<RealVector>(X2);
+	if (k->hasFirstInputDerivative()) {
+		boost::shared_ptr<State> st = k->createState(); RealMatrix r, grad;
+		k->eval(b1, b2, r, *st); k->weightedInputDerivative(b1, b2, C, *st, grad); o.mat("WI", grad);
+	}
+	common(o, *k, X1, X2, C, sizes(g[5]), num(g[6].at(0)), false);
+	if (g[1].at(0) == "NORM") {
+		// the base kernel, built a second time from the same spec: the numbers NormalizedKernel's eval overloads combine
+		Toks bt(g[1].begin() + 1, g[1].end()); Builder<RealVector> bb(bt); AbstractKernelFunction<RealVector>* base = bb.parse(dim);
+		RealMatrix KB(n1, n2); RealVector KX(n1), KZ(n2), KX1(n1), KZ1(n2);
+		for (std::size_t i = 0; i != n1; ++i) { for (std::size_t j = 0; j != n2; ++j) KB(i, j) = base->eval(X1[i], X2[j]); KX(i) = base->eval(X1[i], X1[i]); }
+		for (std::size_t j = 0; j != n2; ++j) KZ(j) = base->eval(X2[j], X2[j]);
+		o.mat("KB", KB); o.vec("KX", KX); o.vec("KZ", KZ);
+		{ RealMatrix r; base->eval(b1, b2, r); o.mat("BB", r); }
+		{ boost::shared_ptr<State> st = base->createState(); RealMatrix r; base->eval(b1, b2, r, *st); o.mat("BBS", r); }
+		for (std::size_t i = 0; i != n1; ++i) { RealMatrix sb = createBatch<RealVector>(std::vector<RealVector>(1, X1[i])); boost::shared_ptr<State> st = base->createState(); RealMatrix r(1, 1); base->eval(sb, sb, r, *st); KX1(i) = r(0, 0); }
+		for (std::size_t j = 0; j != n2; ++j) { RealMatrix sb = createBatch<RealVector>(std::vector<RealVector>(1, X2[j])); boost::shared_ptr<State> st = base->createState(); RealMatrix r(1, 1); base->eval(sb, sb, r, *st); KZ1(j) = r(0, 0); }
+		o.vec("KX1", KX1); o.vec("KZ1", KZ1);
+	}
 }
 static void discrete_case(Out& o, std::vector<Toks> const& g) {
 	std::size_t n = std::stoul(g[0].at(0)); RealMatrix tab(n, n);
@@ -369,6 +413,7 @@ int main(int argc, char** argv) {
 			else if (cmd == "P") pointset_case(o, g);
 			else if (cmd == "M") mkl_case(o, g);
 			else if (cmd == "T") task_case(o, g);
+			else if (cmd == "W") magnitude_case(o, g);
 			else o.key("UNKNOWN");
 			std::cout << o.o.str() << std::endl;
 		} catch (shark::Exception const& e) { std::cout << o.o.str() << " EXC=" << 1 << std::endl; }
